@@ -78,7 +78,8 @@ class CorrelationAnalyzer(BaseAnalyzer):
 
         return ts.TimeSeries(xcorr,
                              sampling_interval=self.input.sampling_interval,
-                             t0=-self.input.sampling_interval * t_points)
+                             time_unit=self.input.time_unit,
+                             t0=-self.input.sampling_interval * (t_points - 1))
 
     @desc.setattr_on_read
     def xcorr_norm(self):
@@ -106,7 +107,7 @@ class CorrelationAnalyzer(BaseAnalyzer):
                 xcorr[i, j] = np.correlate(data_i,
                                           data[j],
                                           mode='full')
-                xcorr[i, j] /= (xcorr[i, j, t_points])
+                xcorr[i, j] /= (xcorr[i, j, t_points - 1])
                 xcorr[i, j] *= self.corrcoef[i, j]
 
         idx = tril_indices(tseries_length, -1)
@@ -114,7 +115,8 @@ class CorrelationAnalyzer(BaseAnalyzer):
 
         return ts.TimeSeries(xcorr,
                              sampling_interval=self.input.sampling_interval,
-                             t0=-self.input.sampling_interval * t_points)
+                             time_unit=self.input.time_unit,
+                             t0=-self.input.sampling_interval * (t_points - 1))
 
 
 class SeedCorrelationAnalyzer(object):
